@@ -979,6 +979,91 @@ theorem polyfit_unit_independent (fit : List α → List α → ℕ → List α)
     rw [List.getElem?_eq_none (Nat.le_of_not_lt hi), List.getElem?_eq_none (Nat.le_of_not_lt hi')]
     rfl
 
+/-! ### round 7: unit_of(simplified=True), from_human refusals, non-list iterables -/
+
+/-- `unit_of(x, simplified=True)`: the same physical unit (SI value, dimension), written with unit factor 1 -/
+theorem unitOfScalarS_spec (v : PyVal α) (hv : v.WF) :
+    (unitOfScalarS true v).si = (unitOfScalar v).si ∧ (unitOfScalarS true v).dims = v.dims ∧ (unitOfScalarS true v).WF ∧
+    (∀ q, unitOfScalarS true v = .qty q → q.unit.factor = 1) ∧ unitOfScalarS false v = unitOfScalar v := by
+  cases v with
+  | num x => simp [unitOfScalarS, unitOfScalar, PyVal.one, PyVal.WF]
+  | qty q =>
+    refine ⟨by simp [unitOfScalarS, unitOfScalar, Quantity.units], by simp [unitOfScalarS], ?_, ?_, by simp [unitOfScalarS, unitOfScalar]⟩
+    · exact ⟨by simp [unitOfScalarS], by simpa [unitOfScalarS] using hv.dims⟩
+    · intro q' h; simp [unitOfScalarS] at h; rw [← h]
+
+/-- when does `unit_registry_from_human_readable` accept an entry, and what does it return -/
+theorem fromHumanEntry_ok_iff (lookup : String → Option (List (SymUnit α × Int))) (e : HumanEntry α) (r : RegEntry α) :
+    fromHumanEntry lookup e = .ok r ↔
+      (e = .one ∧ r = .num 1) ∨ ∃ f sym u k, e = .fs f sym ∧ lookup sym = some [(u, k)] ∧ r = .q f [(u, 1)] := by
+  cases e with
+  | one => simp [fromHumanEntry, eq_comm]
+  | fs f sym =>
+    cases h : lookup sym with
+    | none => simp [fromHumanEntry, h]
+    | some l =>
+      match l, h with
+      | [], h => simp [fromHumanEntry, h]
+      | [(u, k)], h =>
+        simp only [fromHumanEntry, h, Except.ok.injEq, reduceCtorEq, false_and, false_or, HumanEntry.fs.injEq]
+        constructor
+        · intro hr; exact ⟨f, sym, u, k, ⟨rfl, rfl⟩, h, hr.symm⟩
+        · rintro ⟨f', sym', u', k', ⟨rfl, rfl⟩, hl, rfl⟩
+          rw [h] at hl
+          simp only [Option.some.injEq, List.cons.injEq, Prod.mk.injEq, and_true] at hl
+          rw [hl.1]
+      | _ :: _ :: _, h => simp [fromHumanEntry, h]
+
+/-- the refusals: LookupError iff the symbol does not parse, TypeError iff it parses to anything but one unit object -/
+theorem fromHumanEntry_error_iff (lookup : String → Option (List (SymUnit α × Int))) (f : α) (sym : String) :
+    (fromHumanEntry lookup (.fs f sym) = .error .lookupError ↔ lookup sym = none) ∧
+    (fromHumanEntry lookup (.fs f sym) = .error .typeError ↔ ∃ l, lookup sym = some l ∧ l.length ≠ 1) := by
+  cases h : lookup sym with
+  | none => simp [fromHumanEntry, h]
+  | some l =>
+    match l, h with
+    | [], h => simp [fromHumanEntry, h]
+    | [(u, k)], h => simp [fromHumanEntry, h]
+    | _ :: _ :: _, h => simp [fromHumanEntry, h]
+
+/-- a generator / dict view: refused for every dimensional target before any element is seen; element-wise like a list for a
+    dimensionless target (mirrored behaviour, OUTSIDE the statement of C09) -/
+theorem toUnitless_iterable (l : List (Val α)) (u : PyVal α) (hu : u.WF) :
+    (u.dims = Dims.zero → toUnitless (.iterable l) u = toUnitless (.list l) u) ∧
+    (u.dims ≠ Dims.zero → toUnitless (.iterable l) u = .error .valueError) := by
+  have hone : (PyVal.one : PyVal α).WF := by simp [PyVal.one, PyVal.WF]
+  have hdl := dimensionless_wf (α := α)
+  have hdivw : ((PyVal.one : PyVal α).div u).WF := by
+    cases u with
+    | num y => simp [PyVal.one, PyVal.div, PyVal.WF]
+    | qty q =>
+      exact ⟨by simpa [PyVal.one, PyVal.div, Unit.div, Unit.one] using hu.factor_ne,
+        by simpa [PyVal.one, PyVal.div, Unit.div, Unit.one] using Dims.sub_wf Dims.zero_wf hu.dims⟩
+  have hdivd : ((PyVal.one : PyVal α).div u).dims = Dims.zero ↔ u.dims = Dims.zero := by
+    cases u with
+    | num y => simp [PyVal.one, PyVal.div]
+    | qty q =>
+      simp only [PyVal.one, PyVal.div, PyVal.dims_qty, Unit.div, Unit.one]
+      exact Dims.zero_sub_eq_zero_iff hu.dims
+  constructor
+  · intro hd
+    rw [toUnitless, toUnitless]
+    cases hv : (PyVal.one : PyVal α).div u with
+    | num x => simp [rescale, PyVal.eqOne, Quantity.dimensionless]
+    | qty q =>
+      have : q.unit.dims = (Unit.one : Unit α).dims := by
+        have := hdivd.mpr hd; rw [hv] at this; exact this
+      simp [rescale, quantitiesRescale, Quantity.dimensionless, this, Except.map]
+  · intro hd
+    rw [toUnitless]
+    cases hv : (PyVal.one : PyVal α).div u with
+    | num x =>
+      exfalso; apply hd; apply hdivd.mp; rw [hv]; rfl
+    | qty q =>
+      have : ¬ q.unit.dims = (Unit.one : Unit α).dims := by
+        intro h; apply hd; apply hdivd.mp; rw [hv]; exact h
+      simp [rescale, quantitiesRescale, Quantity.dimensionless, this, Except.map]
+
 /-! ### allclose: the test is a statement about physical values -/
 section Ordered
 variable {β : Type} [Field β] [LinearOrder β] [IsStrictOrderedRing β]
@@ -1055,6 +1140,37 @@ theorem allcloseScalar_atol (p q t : Quantity β) (hp : (PyVal.qty p).WF) (hpos 
   · intro ht
     have ht' : ¬ q.unit.dims = t.unit.dims := hd ▸ ht
     simp only [allcloseScalar, addLike, PyVal.asQuantity, hd, if_true, ht', if_false]
+
+theorem allcloseArrays_go (rtol : β) (atol : Option (PyVal β)) (a b : List (PyVal β)) (acc : Bool)
+    (hok : List.Forall₂ (fun x y => ∃ r, allcloseScalar x y rtol atol = .ok r) a b) :
+    ∃ r, allcloseArrays.go rtol atol a b acc = .ok r ∧
+      (r = true ↔ acc = true ∧ List.Forall₂ (fun x y => allcloseScalar x y rtol atol = .ok true) a b) := by
+  induction hok generalizing acc with
+  | nil => exact ⟨acc, by simp [allcloseArrays.go], by simp⟩
+  | @cons x y xs ys hxy _ ih =>
+    obtain ⟨r0, hr0⟩ := hxy
+    obtain ⟨r, h1, h2⟩ := ih (acc && r0)
+    refine ⟨r, by simp [allcloseArrays.go, hr0, h1], ?_⟩
+    rw [h2]
+    constructor
+    · rintro ⟨hacc, hf⟩
+      simp only [Bool.and_eq_true] at hacc
+      exact ⟨hacc.1, List.Forall₂.cons (by rw [hr0, hacc.2]) hf⟩
+    · rintro ⟨hacc, hf⟩
+      cases hf with
+      | cons h1' h2' =>
+        rw [hr0] at h1'; simp only [Except.ok.injEq] at h1'
+        exact ⟨by simp [hacc, h1'], h2'⟩
+
+/-- `allclose` on two quantity arrays of equal length (no pair raises): True iff every pair is close -/
+theorem allcloseArrays_spec (rtol : β) (atol : Option (PyVal β)) (a b : List (PyVal β))
+    (hok : List.Forall₂ (fun x y => ∃ r, allcloseScalar x y rtol atol = .ok r) a b) :
+    ∃ r, allcloseArrays false a b rtol atol = .ok r ∧
+      (r = true ↔ List.Forall₂ (fun x y => allcloseScalar x y rtol atol = .ok true) a b) := by
+  obtain ⟨r, h1, h2⟩ := allcloseArrays_go rtol atol a b true hok
+  refine ⟨r, ?_, by simpa using h2⟩
+  have hlen := hok.length_eq
+  simp [allcloseArrays, hlen, h1]
 
 end Ordered
 
